@@ -81,10 +81,22 @@ CHECKS['C18'] = {
 
 CHECKS['C17'] = {
     'level': 'exploration',
-    'jobs': [{'engine': 'polyseq', 'variant': 'san', 'profile': 'wrap', 'quick': 1200, 'thorough': 30000, 'avg_case_s': 0.15}],
+    'jobs': [
+        {'engine': 'wrapseq', 'variant': 'san', 'profile': 'default', 'kv': {'inst': 'all'}, 'quick': 8000, 'thorough': 200000, 'avg_case_s': 0.04},
+        {'engine': 'boxseq', 'variant': 'san', 'profile': 'wrap', 'kv': {'inst': 'all'}, 'quick': 1600, 'thorough': 64000, 'avg_case_s': 0.15},
+        {'engine': 'polyseq', 'variant': 'san', 'profile': 'wrap', 'quick': 800, 'thorough': 30000, 'avg_case_s': 0.15},
+    ],
     'prefixes': ['C17.'],
-    'required_counters': ['q.contains_integer_point', 'op.drop_some_non_integer_points', 'int_points_checked'],
-    'rule': POLY_RULE,
+    'required_counters': ['q.contains_integer_point', 'op.drop_some_non_integer_points', 'int_points_checked', 'op.wrap_assign', 'op.contains_integer_point', 'images.checked',
+                          'pts.moved', 'wrap.mode.wraps', 'wrap.mode.undefined', 'wrap.mode.impossible', 'wrap.collectively', 'wrap.individually', 'wrap.guarded',
+                          'wrap.multi_quadrant_arg', 'wrap.unbounded_arg', 'wrap.w64', 'drop.exact_subset_checks', 'cip.decided_by.exhaustive', 'inst.grid', 'inst.pset', 'inst.prod',
+                          'wrap_checks', 'int_points_moved_by_wrap'],
+    'rule': ('wrapseq: cases = one random argument (dim 1-3, 4 in thorough) of one of 9 domain instances (C/NNC polyhedra, BD shapes and octagons over mpq/mpz, Grid, powerset, product; rotating) '
+             'and one call of wrap_assign / drop_some_non_integer_points / contains_integer_point; boxseq profile wrap: the same on 11 Box instantiations; polyseq profile wrap: the integer-aware '
+             'operators inside polyhedra histories (all lazy states). The integer points of the argument (integral on the designated dimensions, a few rational values elsewhere) are enumerated '
+             'exhaustively when the window is small, sampled at quadrant boundaries otherwise; every required image is tested by exact arithmetic on the result read back through a copy. '
+             'evaluations = 1 per call + 1 per required image / kept point / exact inclusion; distinct_nontrivial = distinct (operation | instance | overflow mode | width+signedness | '
+             'individual/collective | threshold | guard | lazy-state word | quadrants spanned | bounded/unbounded | #vars/#dims) configurations with at least one enumerated point.'),
     'assumptions': ['GMP arithmetic', 'integer points enumerated exhaustively in the bounded window of the argument'],
 }
 
@@ -146,4 +158,111 @@ CHECKS['C12'] = {
              'sign/openness/infinity class of each operand | class of result). fplin: case = one random expression tree with its abstract store (every subtree checked at 60/500 concrete '
              'stores x 4 rounding modes with machine arithmetic) or 3-8 linear-form operator steps at 6 rational stores.'),
     'assumptions': ['GMP arithmetic', 'member sampling at end points, just inside open ends, midpoints, zero and random interior points', 'x86-64 FPU for the concrete evaluations'],
+}
+
+SHAPE_RULE = ('shapeseq: cases = random histories (4-12 steps) over a pool of 3 elements of one instantiation ({BD_Shape, Octagonal_Shape} x {mpq, mpz, int8..int64, float, double, long double}, '
+              'rotating by case index), dimension 0-3 (4 thorough), bounds drawn near the limits of T in 40% of cases (100% in profile limits); every element is read as the exact rational image '
+              'of its matrix; each step computes the exact result as an exists-projected linear system and decides inclusion / template suprema / predicates by exact LP. '
+              'boxseq: the same for 11 Box instantiations (rational open/closed, mpz, native ints, floats) read through get_interval()/constraints(). '
+              'evaluations = oracle checks; distinct_nontrivial = distinct (kind | instantiation | operation or query | ascii_dump status word | receiver class [| argument class]) tuples whose '
+              'receiver was neither empty nor universe, counted by hashing.')
+CHECKS['C03'] = {
+    'level': 'exploration',
+    'jobs': [
+        {'engine': 'shapeseq', 'variant': 'san', 'profile': 'default', 'kv': {'inst': 'all'}, 'quick': 3600, 'thorough': 180000, 'avg_case_s': 0.05},
+        {'engine': 'shapeseq', 'variant': 'san', 'profile': 'limits', 'kv': {'inst': 'all'}, 'quick': 1200, 'thorough': 36000, 'avg_case_s': 0.05},
+        {'engine': 'boxseq', 'variant': 'san', 'profile': 'ops', 'kv': {'inst': 'all'}, 'quick': 2400, 'thorough': 80000, 'avg_case_s': 0.1},
+        {'engine': 'boxseq', 'variant': 'san', 'profile': 'conv', 'kv': {'inst': 'all'}, 'quick': 800, 'thorough': 32000, 'avg_case_s': 0.1},
+    ],
+    'prefixes': ['C03.'],
+    'required_counters': ['sound_checks', 'view_checks', 'pred_checks', 'ctor_checks', 'op.affine_image', 'op.bounded_affine_preimage', 'op.generalized_affine_image_lr',
+                          'op.difference_assign', 'op.fold_space_dimensions', 'q.max_min', 'cases.bd_int8', 'cases.oct_ldouble', 'reach.BDS_CLOSURE', 'reach.OCT_CLOSURE',
+                          'reach.BDS_REDUCTION', 'reach.BOX_PROPAGATE'],
+    'rule': SHAPE_RULE,
+    'assumptions': ['GMP arithmetic', 'reference model /verif/ref', 'float bounds are exact dyadic rationals'],
+}
+CHECKS['C04'] = {
+    'level': 'exploration',
+    'jobs': [
+        {'engine': 'shapeseq', 'variant': 'san', 'profile': 'exact', 'kv': {'inst': 'rational'}, 'quick': 1600, 'thorough': 40000, 'avg_case_s': 0.05},
+        {'engine': 'boxseq', 'variant': 'san', 'profile': 'pred', 'kv': {'inst': 'rat'}, 'quick': 1600, 'thorough': 64000, 'avg_case_s': 0.05},
+        {'engine': 'boxseq', 'variant': 'san', 'profile': 'ops', 'kv': {'inst': 'rat'}, 'quick': 1200, 'thorough': 48000, 'avg_case_s': 0.08},
+        {'engine': 'boxseq', 'variant': 'san', 'profile': 'conv', 'kv': {'inst': 'rat'}, 'quick': 640, 'thorough': 24000, 'avg_case_s': 0.08},
+    ],
+    'prefixes': ['C04.'],
+    'required_counters': ['best_checks', 'exact_checks', 'pred_checks', 'twins', 'op.upper_bound_assign_if_exact', 'q.relation_with_cg', 'q.relation_with_g', 'q.affine_dimension', 'q.constrains'],
+    'rule': SHAPE_RULE,
+    'assumptions': ['GMP arithmetic', 'reference model /verif/ref', 'exactness demanded only for expressible transfer relations (DESIGN C04)'],
+}
+CHECKS['C09'] = {
+    'level': 'exploration',
+    'jobs': [
+        {'engine': 'psetseq', 'variant': 'san', 'profile': 'default', 'kv': {'inst': 'all'}, 'quick': 2400, 'thorough': 48000, 'avg_case_s': 0.06},
+        {'engine': 'psetseq', 'variant': 'san', 'profile': 'geom', 'kv': {'inst': 'all'}, 'quick': 1200, 'thorough': 24000, 'avg_case_s': 0.06},
+        {'engine': 'psetseq', 'variant': 'san', 'profile': 'cow', 'kv': {'inst': 'all'}, 'quick': 1200, 'thorough': 24000, 'avg_case_s': 0.06},
+    ],
+    'prefixes': ['C09.'],
+    'required_counters': ['op_checks', 'reduction_checks', 'difference_checks', 'geom_checks', 'simplify_checks', 'op.collapse', 'op.drop_disjunct', 'op.concatenate_assign',
+                          'op.fold_space_dimensions', 'cases.cpoly', 'cases.nncpoly', 'cases.grid', 'cases.bds', 'cases.oct', 'cases.box', 'reach.DETERMINATE_MUTATE',
+                          'reach.POWERSET_OMEGA_REDUCE'],
+    'rule': ('cases = random histories (4-12 steps) over a pool of 3 same-dimension Pointset_Powerset<D> objects (D rotating over C/NNC polyhedra, Grid, BD_Shape<mpq>, Octagonal_Shape<mpq>, '
+             'Rational_Box; dimension 0-3; <= 6 disjuncts incl. duplicate/subset/adjacent/empty/universe members) plus <= 3 live snapshots; every step is compared with the union of the disjunct '
+             'shadows (exact LP RefUnion / exact lattice-coset comparison). distinct_nontrivial = distinct (inst | operation | state word: reduced flag, size class, shares-a-representation, '
+             'has-empty-disjunct | argument class) configurations whose receiver had >= 2 non-empty disjuncts, counted by hashing. evaluations = union comparisons, reduction/flag/OK checks, '
+             'boolean re-decisions, bystander/snapshot comparisons.'),
+    'assumptions': ['GMP arithmetic', 'RefUnion (recursive subtraction with node cap => inconclusive)', 'RefGrid coset enumeration (cap 20000 => inconclusive)'],
+}
+
+CHECKS['C08'] = {
+    'level': 'exploration',
+    'jobs': [{'engine': 'widenchain', 'variant': 'san', 'profile': 'default', 'quick': 1600, 'thorough': 40000, 'avg_case_s': 0.3}],
+    'prefixes': ['C08.'],
+    'required_counters': ['superset_checks', 'certificate_checks', 'certificate_ppl_compares', 'token_checks', 'limited_checks', 'twin_checks',
+                          'chains.C_Polyhedron.BHRZ03_widening_assign', 'chains.NNC_Polyhedron.H79_widening_assign', 'chains.BD_Shape<mpq_class>.BHMZ05_widening_assign',
+                          'chains.Octagonal_Shape<mpq_class>.BHMZ05_widening_assign', 'chains.Rational_Box.CC76_widening_assign', 'chains.Box<double>.CC76_widening_assign',
+                          'chains.Grid.congruence_widening_assign', 'chains.Grid.generator_widening_assign', 'op.bounded_BHRZ03_extrapolation_assign',
+                          'op.limited_congruence_extrapolation_assign', 'reach.BHRZ03_WIDENING', 'reach.H79_WIDENING'],
+    'rule': ('cases = adversarial ascending chains y_{k+1} = y_k widen (y_k join F(y_k)) in one domain with one widening (H79/BHRZ03 on C/NNC polyhedra, BHMZ05/H79/CC76 on BD shapes and octagons, '
+             'CC76 on rational and double boxes, the three grid widenings, BHZ03/BGP99 on powersets of polyhedra and grids, plus limited/bounded extrapolations and tokens), dimension 0-3 (4 thorough), '
+             'until 3 stationary steps or cap 200 (cap = inconclusive); evaluations = exact-LP / reference-lattice decisions (superset, argument unchanged, certificate recomputation + PPL compare, '
+             'token differential, limited/bounded bounds and kept constraints, twin equality); distinct_nontrivial = distinct (domain | operator | status word of x | status word of y | outcome class) '
+             'and twin-kind configurations with x neither empty nor universe.'),
+    'assumptions': ['GMP arithmetic', 'reference model /verif/ref', 'well-foundedness of the certificate orders (mathematics, trusted)', 'convergence restated as strict certificate decrease at each non-stationary step'],
+}
+
+CHECKS['C10'] = {
+    'level': 'exploration',
+    'jobs': [
+        {'engine': 'prodseq', 'variant': 'san', 'profile': 'default', 'kv': {'inst': 'all'}, 'quick': 2400, 'thorough': 18000, 'avg_case_s': 0.15},
+        {'engine': 'prodseq', 'variant': 'san', 'profile': 'reduce', 'kv': {'inst': 'all'}, 'quick': 1200, 'thorough': 6000, 'avg_case_s': 0.15},
+    ],
+    'prefixes': ['C10.'],
+    'required_counters': ['reduction_checks', 'image_checks', 'answer_checks', 'lp_image_checks', 'enum_points', 'reduce.effective.smash', 'reduce.effective.constraints',
+                          'reduce.effective.congruences', 'reduce.effective.shapepres', 'inconsistent_pairs.unreduced', 'complete_enumerations', 'op.reduce', 'op.is_empty',
+                          'op.affine_image', 'op.time_elapse_assign', 'op.fold_space_dimensions', 'op.construct_from_product', 'inst.cpoly_bds_shapepres', 'inst.oct_grid_congruences'],
+    'rule': ('cases = random histories (4-10 steps) over a pool of 3 products of one of 30 (component pair, reduction policy) instantiations, dim 0-3, deterministic in (VERIF_SEED, case index); '
+             'the model of a product is d1 intersect d2 of its raw components observed through copies: lattice points of the grid in a window (own HNF) tested in the convex part, plus exact LP '
+             'for convex x convex; distinct_nontrivial = distinct (inst | operation | reduced flag + component classes + intersection class | argument class [| argument state | alias]) with '
+             '>= 1 enumerated intersection point and not universe; evaluations = reduction monitors, image-containment checks, definite-answer re-decisions, OK/copy/ascii/bystander comparisons.'),
+    'assumptions': ['GMP arithmetic', 'reference model (RefLP, RefGrid HNF)', 'dimension <= 3, window |k| <= 6: lattice points outside the window are not seen'],
+}
+
+CHECKS['C11'] = {
+    'level': 'exploration',
+    'jobs': [
+        {'engine': 'numkernel', 'variant': 'san', 'profile': 'i8', 'quick': 1382, 'thorough': 5478, 'avg_case_s': 0.4, 'min_chunk': 1},
+        {'engine': 'numkernel', 'variant': 'san', 'profile': 'wide', 'quick': 640, 'thorough': 16000, 'avg_case_s': 0.1},
+        {'engine': 'numkernel', 'variant': 'san', 'profile': 'float', 'quick': 640, 'thorough': 16000, 'avg_case_s': 0.1},
+        {'engine': 'numkernel', 'variant': 'san', 'profile': 'gmp', 'quick': 480, 'thorough': 8000, 'avg_case_s': 0.1},
+    ],
+    'prefixes': ['C11.'],
+    'required_counters': ['i8.units_run', 'op.div', 'op.add_mul', 'op.assign', 'op.sqrt', 'op.smod_2exp', 'op.compare', 'op.bounded_throwing_interface',
+                          'ok.overflow', 'ok.unknown_overflow', 'ok.nan', 'ok.inexact'],
+    'rule': ('evaluations = single checked-number calls judged against the exact GMP result (relation truthful, directed rounding on the right side, overflow/infinity/NaN classification truthful, '
+             'policy contracts respected); profile i8 enumerates all 256x256 raw operand patterns (x 5-6 rounding directions, 4 policies, 8 binary + 2 fused + 7 unary + 6 2exp operations, comparisons, '
+             'conversions from all 8/16-bit sources, bounded throwing operators) - exhaustive iff counter i8.units_run equals i8.units_in_tier; the other profiles draw boundary-biased operands for '
+             '16/32/64-bit integers, float/double/long double (volatile, incl. denormals, infinities, NaN) and mpz/mpq; distinct_nontrivial = distinct (op, type, policy, direction, operand/result class, '
+             'Result code) configurations.'),
+    'assumptions': ['GMP arithmetic', 'floats decoded from their bit patterns; oracle never uses floating point', 'x86-64 FPU control paths only'],
+    'exhaustive': False,
 }
